@@ -15,16 +15,16 @@
      period (1 s + lateness), and that tick reconnects ([C05_silent_server_reconnect]); likewise 60+1+1 s for the watchdog. *)
 From Coq Require Import List ZArith Bool.
 Import ListNotations.
-From V Require Import Base.U32 Base.Bytes Base.Iface Gen.ProtoConsts Gen.C04Consts C04.Model C04.Proofs C05.Model C05.Proofs.
+From V Require Import Base.U32 Base.Bytes Base.Iface Gen.ProtoConsts Gen.C04Consts C04.Keepalive C04.Model C04.Proofs C04.Timing C05.Model C05.Proofs C05.Sim.
 Local Open Scope Z_scope.
 
 Theorem C05_timer1_is_decide : forall s,
   timer1_cb s =
   if is_registered s then
     match t1_decide (uptime s) (lastsent s) (lastresp s) (actto s) with
-    | T1_reconnect => devconn_reconnect s
-    | T1_ping => async_call (api_call A_PING) (zeros (api_size A_PING)) s
-    | T1_none => s
+    | T1_reconnect => devconn_reconnect (t1_ghost s)
+    | T1_ping => async_call (api_call A_PING) (zeros (api_size A_PING)) (t1_ghost s)
+    | T1_none => t1_ghost s
     end
   else s.
 Proof. exact timer1_cb_decide. Qed.
@@ -70,7 +70,7 @@ Print Assumptions C05_seconds_elapsed.
 Theorem C05_silent_server_reconnect : forall s,
   is_registered s = true -> 0 < actto s < 4294966000 -> 0 <= lastresp s -> lastresp s <= uptime s ->
   actto s + PING_RECONNECT_PLUS <= uptime s - lastresp s ->
-  callback T_timer1 s = devconn_reconnect s /\
+  callback T_timer1 s = devconn_reconnect (t1_ghost s) /\
   In (mk O_DISCONNECT [now s] []) (outs (callback T_timer1 s)) /\ In (mk O_WIFISTART [now s] []) (outs (callback T_timer1 s)).
 Proof. exact silent_reconnect_thm. Qed.
 Print Assumptions C05_silent_server_reconnect.
@@ -80,6 +80,63 @@ Theorem C05_silent_server_restart : forall s,
   callback T_wd s = restart s /\ In (mk O_RESTART [now s] []) (outs (callback T_wd s)) /\ halted (callback T_wd s) = true.
 Proof. exact silent_restart_thm. Qed.
 Print Assumptions C05_silent_server_restart.
+
+(* the side condition on the generated call-site list (see Properties_C04.v) *)
+Lemma C05_sites_guarded : sites_ok CallSites = true.
+Proof. reflexivity. Qed.
+
+(* ---------- END TO END on the full automaton (fuel-free semantics, C04/Timing.v) ----------
+   s0: any reachable state (lateness script bounded by J); tau: the true time at which the last call was received
+   (last_response = uptime second of tau); s0 --evs--> s1: ANY run (local traffic, callbacks, Wi-Fi events, send results,
+   timer phases) in which no call is received (nresp unchanged); no wrap of the 32-bit microsecond counter up to now s1
+   (C19 covers the wrap); the model has no configuration mode / firmware update. *)
+(* registered with granted timeout T (0 < T), no refusal stop pending: once the run has reached tau + (T+10+1) s + J the device
+   has called espconn_disconnect AND wifi_station_connect (the Wi-Fi/TCP connect sequence) at one instant t before that bound *)
+Theorem C05_silent_server_reconnects : forall J cs cc s0 evs s1 tau, 0 <= J ->
+  rreachable cs cc J s0 -> RRun s0 evs s1 -> nresp s1 = nresp s0 ->
+  cycles0 s0 = 0 -> 0 <= boot s0 -> boot s0 + now s1 < 4294967296 -> lastresp s0 = Upt s0 tau ->
+  is_registered s0 = true -> armed (t_stop s0) = false -> 0 < actto s0 < 4294966000 ->
+  tau + (actto s0 + PING_RECONNECT_PLUS) * 1000000 + T1_US + J <= now s1 ->
+  exists t, now s0 <= t /\ t <= now s1 /\ disc_at t s1 /\ wifi_at t s1 /\
+            t < tau + (actto s0 + PING_RECONNECT_PLUS) * 1000000 + T1_US + J.
+Proof. intros J cs cc s0 evs s1 tau HJ. exact (silent_reconnect_e2e_thm J HJ cs cc s0 evs s1 tau C05_sites_guarded). Qed.
+Print Assumptions C05_silent_server_reconnects.
+
+(* any state (registered or not, whatever T): once the run has reached tau + (60+1+1) s + J the device has called
+   supla_system_restart at an instant t before that bound *)
+Theorem C05_silent_server_restarts : forall J cs cc s0 evs s1 tau, 0 <= J ->
+  rreachable cs cc J s0 -> RRun s0 evs s1 -> nresp s1 = nresp s0 ->
+  cycles0 s0 = 0 -> 0 <= boot s0 -> boot s0 + now s1 < 4294967296 -> lastresp s0 = Upt s0 tau ->
+  halted s0 = false -> tau + (WATCHDOG_TIMEOUT_S + 1) * 1000000 + WD_US + J <= now s1 ->
+  halted s1 = true /\ exists t, now s0 <= t /\ t <= now s1 /\ restart_at t s1 /\ t < tau + (WATCHDOG_TIMEOUT_S + 1) * 1000000 + WD_US + J.
+Proof. intros J cs cc s0 evs s1 tau HJ. exact (silent_restart_e2e_thm J HJ cs cc s0 evs s1 tau C05_sites_guarded). Qed.
+Print Assumptions C05_silent_server_restarts.
+(* with the generated constants the two bounds are tau + (T+11) s + J and tau + 62 s + J *)
+Example C05_bound_values : PING_RECONNECT_PLUS * 1000000 + T1_US = 11000000 /\ (WATCHDOG_TIMEOUT_S + 1) * 1000000 + WD_US = 62000000.
+Proof. split; reflexivity. Qed.
+
+(* the hypotheses are satisfiable: the run of C05_bounds_tight (T = 10, tau = 1000001 us, J = 0) *)
+Example C05_end_to_end_example :
+  rreachable true false 0 e2e_s0 /\ RRun e2e_s0 [Adv 25000000] e2e_s1 /\ nresp e2e_s1 = nresp e2e_s0 /\
+  cycles0 e2e_s0 = 0 /\ 0 <= boot e2e_s0 /\ boot e2e_s0 + now e2e_s1 < 4294967296 /\ lastresp e2e_s0 = Upt e2e_s0 1000001 /\
+  is_registered e2e_s0 = true /\ armed (t_stop e2e_s0) = false /\ actto e2e_s0 = 10 /\ halted e2e_s0 = false /\
+  1000001 + (actto e2e_s0 + PING_RECONNECT_PLUS) * 1000000 + T1_US + 0 <= now e2e_s1.
+Proof. exact e2e_example. Qed.
+
+(* ---------- keep-alive on the automaton (simulation, C05/Sim.v) ----------
+   The automaton runs the abstract semantics in lockstep as ghost state (kabs: abstract state, kenv: conjunction of kenv_ok over
+   the abstract events of the current episode).  In every reachable registered state whose episode satisfied the environment
+   conditions and 10 <= T <= 50: the abstract invariant holds of the REAL last_sent / last_response, no reconnect was decided in
+   the episode, the next timer1 tick (if it too satisfies kenv_ok) does not reconnect and a watchdog tick before it does nothing. *)
+Theorem C05_keepalive_automaton : forall cs cc J s, rreachable cs cc J s ->
+  is_registered s = true -> kenv s = true -> 10 <= actto s <= 50 ->
+  let T := actto s in let k := kabs s in
+  KInv T k /\ k_ls k = lastsent s /\ k_lr k = lastresp s /\ k_bad k = false /\
+  k_cur k - lastsent s <= T /\ k_cur k - lastresp s <= T + 2 /\
+  (forall slot, kenv_ok T k (Tick (uptime s) slot) = true -> t1_decide (uptime s) (lastsent s) (lastresp s) T <> T1_reconnect) /\
+  (forall up nw, lastresp s <= up -> up <= k_lt k + 2 -> up < 4294967296 -> wd_decide up (lastresp s) T nw = WD_none).
+Proof. intros cs cc J s. exact (keepalive_automaton_thm cs cc J s C05_sites_guarded). Qed.
+Print Assumptions C05_keepalive_automaton.
 
 (* both bounds are attained up to 2 us: T = 10 -> closed and reconnecting 20.999999 s after the last message;
    T = 120 -> restart 61.999999 s after the last message *)
